@@ -413,7 +413,14 @@ class H2Protocol:
         raw_path = b""  # A CONNECT request need not have a path
         for name, value in request.headers:
             if name == b":method":
-                method = value.decode("ascii").upper()
+                try:
+                    method = value.decode("ascii").upper()
+                except UnicodeDecodeError:
+                    # A method is a token, so the request is malformed
+                    self.connection.reset_stream(
+                        request.stream_id, h2.errors.ErrorCodes.PROTOCOL_ERROR
+                    )
+                    return
             elif name == b":path":
                 raw_path = value
 
